@@ -439,6 +439,14 @@ impl ChallengeAck {
             ));
         }
 
+        // The acknowledgement is exactly the tag and a 16-byte digest
+        if buf.remaining() > 16 {
+            return Err(Error::InvalidHandshakeMessage(format!(
+                "Unexpected {} bytes after digest",
+                buf.remaining() - 16
+            )));
+        }
+
         let mut digest = [0u8; 16];
         buf.copy_to_slice(&mut digest);
 
